@@ -93,6 +93,7 @@ def run(ctx, run):
     # ---- display side: cached row bytes only through the parity / Hamming decoders -------------------
     _raw_bytes_decoded(ctx, run)
     _same_header_parity(ctx, run, P.need("same_header", UNIT))
+    neg.helper_contract(ctx, run)
 
 
 def _field(f, lhs):
